@@ -1,2 +1,70 @@
-(* Props/C16.v — placeholder, theorems added in a later commit *)
-From NIR Require Import Model.Serial.
+(* Props/C16.v — Metadata is carried faithfully and is semantically inert. *)
+From NIR Require Import Model.Serial Proofs.SerialProofs.
+
+(* CARRIED: a metadata tree is a nested dictionary of the dictionary form; the file round trip recurses
+   into it: sub-dictionaries, strings and arrays come back at the same path, identical *)
+Theorem c16_metadata_tree_carried :
+  forall kv kv' k l, norm_entries kv = Ok kv' -> In (k, VDict l) kv -> (k <> "metadata" \/ l <> []) ->
+    exists l', norm_entries l = Ok l' /\ In (k, VDict l') kv'.
+Proof. exact subdict_survives. Qed.
+
+Theorem c16_strings_carried :
+  forall d d' p s, norm_entries d = Ok d' -> reach d p (VStr s) -> reach d' p (VStr s).
+Proof. exact strings_survive_deep. Qed.
+
+Theorem c16_arrays_carried :
+  forall d d' p dt sh tok i,
+    norm_entries d = Ok d' -> reach d p (VArr dt sh tok i) -> sh <> [] -> reach d' p (VArr dt sh tok i).
+Proof. exact arrays_survive_deep. Qed.
+
+Theorem c16_ints_carried : forall z v', norm_val (VInt z) = Ok v' -> int_view v' = Some z.
+Proof. exact norm_val_int. Qed.
+
+Theorem c16_graph_metadata_in_dict : forall ch es gi go m, reach (to_dict (Graph ch es gi go m)) ["metadata"] m.
+Proof. exact to_dict_reach_metadata. Qed.
+
+(* INERT (1): the types every constructor derives do not depend on metadata, nor does acceptance *)
+Theorem c16_inert_types : forall k fs m,
+  res_types (post_init k (assoc_set "metadata" m fs)) = res_types (post_init k fs).
+Proof. exact post_init_ignores_metadata. Qed.
+
+(* INERT (2): inference never looks at metadata when it recomputes a type *)
+Theorem c16_inert_inference : forall k fs m o i,
+  dproj (derive_output k (assoc_set "metadata" m fs) o i) = dproj (derive_output k fs o i).
+Proof. exact derive_output_ignores_metadata. Qed.
+
+(* INERT (3): the type check reads nothing but the two types of each child *)
+Theorem c16_inert_check : forall ch ch' es,
+  (forall k, match assoc k ch, assoc k ch' with
+             | Some a, Some b => same_types a b
+             | None, None => True
+             | _, _ => False
+             end) ->
+  check_edges ch es = check_edges ch' es.
+Proof. exact check_edges_types_only. Qed.
+
+(* INERT (4): in the file, every entry other than the "metadata" group of a node is written
+   independently of that node's metadata value *)
+Theorem c16_inert_file : forall kv1 kv2 r1 r2,
+  Forall2 (fun a b => fst a = fst b /\ (fst a <> "metadata" -> snd a = snd b)) kv1 kv2 ->
+  norm_entries kv1 = Ok r1 -> norm_entries kv2 = Ok r2 ->
+  filter (fun p => negb (String.eqb (fst p) "metadata")) r1 =
+  filter (fun p => negb (String.eqb (fst p) "metadata")) r2.
+Proof. exact norm_entries_other_independent. Qed.
+
+(* non-vacuity *)
+Example c16_example :
+  norm_entries [("scale", VArr "float32" [2] 5 None); ("metadata", VDict [("note", VStr "x"); ("sub", VDict [("n", VInt 3)])])]
+  = Ok [("scale", VArr "float32" [2] 5 None);
+        ("metadata", VDict [("note", VStr "x"); ("sub", VDict [("n", VNp "int64" (-1) (Some 3))])])].
+Proof. reflexivity. Qed.
+
+Print Assumptions c16_metadata_tree_carried.
+Print Assumptions c16_strings_carried.
+Print Assumptions c16_arrays_carried.
+Print Assumptions c16_ints_carried.
+Print Assumptions c16_graph_metadata_in_dict.
+Print Assumptions c16_inert_types.
+Print Assumptions c16_inert_inference.
+Print Assumptions c16_inert_check.
+Print Assumptions c16_inert_file.
